@@ -46,6 +46,13 @@ THEOREMS = [
     "PorepyVerif.C45.dense_shape_collides",
     "PorepyVerif.C45.original_not_injective",
     "PorepyVerif.C45.delimiter_in_value_collides",
+    "PorepyVerif.C45.projection_domain_size_distinct",
+    "PorepyVerif.C45.projection_domain_size_distinct_string",
+    "PorepyVerif.C45.shift_changes_key",
+    "PorepyVerif.C45.shift_keeps_independent",
+    "PorepyVerif.C45.history_keys_correct",
+    "PorepyVerif.C45.stale_key_without_shift_reset",
+    "PorepyVerif.C45.stale_key_without_set_reset",
 ]
 LEAN_MODULES = ["PorepyVerif.C45.Props"]
 AUDIT = "PorepyVerif/C45/Audit.lean"
@@ -59,7 +66,10 @@ RULE = ("a case = 4 expressions: a random operator tree E0 (depth <= 4 quick / 6
         "of whole trees, keys computed before a shift, and 'hash x, then build x.previous_timestep() twice' histories); E1 = E0 built again in a different way (same normal form); E2 = E0 with one leaf datum or one "
         "structural element changed (name, domain, domain class, time/iterate index, value, array entry/shape, matrix entry/format/shape, "
         "index entry, domain/range size, transposed, function, function name, argument grouping, operation, operand order); "
-        "E3 = a second mutant or an unrelated tree. non-trivial = at least one equal and one different pair; distinct = distinct case JSON")
+        "E3 = a second mutant or an unrelated tree. About one case in five is instead a HISTORY of calls on one operator object (_key(), "
+        "previous_timestep(k), previous_iteration(k), Scalar.set_value, k = 0 and illegal shift orders included), compared call by call with the model's "
+        "object-with-cache state machine; explicit strata (counted in the evidence): single leaf, empty domain lists / empty arrays / 0 members, duplicate subtrees, "
+        "permuted operands, repeated shifts, >1000 indices, extreme scalars. non-trivial = at least one equal and one different pair; distinct = distinct case JSON")
 TRUSTED = [
     "proved, no longer trusted: the key string determines the token list (lex_render / keyString_injective) for names and digests without the "
     "characters ',' ')' ' ' ']' (sparse format names also without '('); the driver re-checks wfTree/wfList and lex(render(key)) = key on every case",
@@ -67,7 +77,7 @@ TRUSTED = [
     "independently of porepy's code; a scalar is identified by python's repr of its float value (repr round-trips floats)",
     "the harness' normalisation of an expression to the tree porepy should have built (reverse overloads, add with a raw left operand puts the "
     "operator first, shifts are pushed to the time-dependent leaves) - a disagreement there shows up as a key-string mismatch",
-    "function identity = id() of the wrapped callable (pp.ad.Function) or of the AbstractFunction instance, as in fixes/C45-4-evaluate-function-identity.diff; "
+    "function identity = id() of the wrapped callable (pp.ad.Function) or of the AbstractFunction instance, as in fixes/C45-4-evaluate-function-identity.diff (+ C45-10-evaluate-arity.diff for the argument count); "
     "a SurrogateOperator is identified by its name and its dependencies (its domains are those of the dependencies by contract)",
     "python's str hash: hash(op) == hash(op._key()) is checked; equal hashes of different keys would be a 64-bit collision of the string hash (counted, never observed)",
     "not covered: Projection objects mutated in place by sum_projection_list, operator names (not part of the key by design), the legacy key formats "
@@ -151,10 +161,27 @@ def detect_cfg():
         v = pp.ad.Variable("x", {"cells": 1}, domain=pool()["sd"][0])
         e = pp.ad.Function(funcs()["fn"]["exp"], "e")(v)
         _CFG = {"domSize": "domain_size=5" in k, "idxHash": "range_indices=[" not in k, "plistKeys": "Projection operator" not in pl,
-                "timeIdx": "time_step_index" in v._key(), "domType": "domain_type" in v._key(), "evalFn": "(function" in e._key(),
+                "timeIdx": "time_step_index" in v._key(), "domType": "domain_type" in v._key(), "evalFn": "(function" in e._key(), "evalArity": "nargs=" in e._key(),
                 "denseShape": "shape=" in pp.ad.DenseArray(np.zeros(2))._key(),
                 "mergedDomType": "domain_type" in pp.ad.MergedOperator(funcs()["discr"]["DiscrA"], "flux", "flow", None, [pool()["sd"][0]])._key()}
     return _CFG
+
+
+_POL = None
+
+
+def detect_policy():
+    """which code paths discard a cached key (CachePolicy of the model)"""
+    global _POL
+    if _POL is None:
+        import porepy as pp
+        v = pp.ad.Variable("x", {"cells": 1}, domain=pool()["sd"][0])
+        k0 = v._key()
+        sc = pp.ad.Scalar(1.0)
+        sc._key()
+        sc.set_value(2.0)
+        _POL = {"resetOnShift": v.previous_timestep()._key() != k0 or not detect_cfg()["timeIdx"], "resetOnSet": "2.0" in sc._key()}
+    return _POL
 
 
 # ------------------------------------------------------------------------------------------ expression helpers
@@ -890,7 +917,68 @@ def variant(rng, E):
     return E2
 
 
+def gen_hist(rng, tier):
+    r = rng.random()
+    if r < 0.25:
+        E = {"k": "scalar", "v": _dy(rng)}
+    elif r < 0.6:
+        E = gen_leaf(rng, allow_big=False)
+        E.pop("steps", None)
+        E.pop("shift_first", None)
+        if E["k"] == "scalar":
+            E = {"k": "scalar", "v": E["v"]}
+    else:
+        E = gen_tree(rng, rng.choice([1, 2]))
+    ops = []
+    for _ in range(rng.randint(1, 7)):
+        q = rng.random()
+        if q < 0.4:
+            ops.append(["key"])
+        elif q < 0.85 or E["k"] != "scalar":
+            ops.append([rng.choice(["ts", "ts", "it"]), rng.choice([0, 1, 1, 1, 2, 3]) if rng.random() < 0.15 else rng.choice([1, 1, 2])])
+        else:
+            ops.append(["set", _dy(rng)])
+    if rng.random() < 0.5:
+        ops.append(["key"])
+    return {"hist": {"tree": E, "ops": ops}, "stratum": "history"}
+
+
+def _stratum_tree(rng, tier):
+    """corner-case strata for E0"""
+    q = rng.random()
+    if q < 0.15:
+        return gen_leaf(rng), "single-leaf"
+    if q < 0.25:
+        E = rng.choice([{"k": "mdvar", "name": "p", "doms": [], "steps": []}, {"k": "tdda", "name": "t", "doms": [], "steps": _gen_steps(rng, False)},
+                        {"k": "dense", "shape": [0], "vals": []}, {"k": "plist", "ps": []}, {"k": "div", "dim": 1, "sds": []},
+                        {"k": "proj", "rng": [], "dom": [], "dsize": rng.randint(0, 3), "rsize": rng.randint(0, 3), "tr": False},
+                        {"k": "sparse", "fmt": rng.choice(FMTS), "shape": [rng.randint(1, 2), rng.randint(1, 2)], "ent": []},
+                        {"k": "merged", "cls": "DiscrA", "mk": "flux", "pk": "flow", "inner": None, "doms": []}])
+        return E, "empty-data"
+    if q < 0.35:
+        a = gen_tree(rng, rng.choice([0, 1, 2]))
+        return {"k": "bin", "op": rng.choice(list(OPS)), "a": a, "b": copy.deepcopy(a)}, "duplicate-subtrees"
+    if q < 0.42:
+        E = {"k": "var", "name": rng.choice(NAMES), "dom": ["sd", rng.randrange(NSD)], "steps": [[rng.choice(["ts", "it"]), 1]] * rng.randint(2, 6)}
+        E["steps"] = [[E["steps"][0][0], 1] for _ in E["steps"]]
+        return E, "repeated-shifts"
+    if q < 0.48:
+        return {"k": "bin", "op": "mul", "a": {"k": "scalar", "v": rng.choice(["1/1000000000000000000000000000000", "179769313486231570000000000000000000000000000000000000000", "-0", "1/3"])},
+                "b": _gen_proj(rng, big=True)}, "extreme-scale"
+    return None, None
+
+
 def gen_case(rng, tier):
+    if rng.random() < 0.2:
+        return gen_hist(rng, tier)
+    E0s, stratum = _stratum_tree(rng, tier)
+    if E0s is not None and _valid(E0s):
+        E1 = variant(rng, E0s)
+        E2, lab = mutate(rng, E0s)
+        E3, lab3 = mutate(rng, E0s)
+        if stratum == "duplicate-subtrees":  # also the operands of the root permuted (only equal if both are equal)
+            E3, lab3 = dict(copy.deepcopy(E0s), a=E0s["b"], b=E0s["a"]), "permuted-operands"
+        return {"trees": [E0s, E1, E2, E3], "mut": [lab, lab3], "stratum": stratum}
     depth = rng.choice([0, 1, 2, 3, 4] if tier == "quick" else [0, 1, 2, 3, 4, 5, 6])
     E0 = gen_tree(rng, depth)
     E1 = variant(rng, E0)
@@ -910,7 +998,41 @@ def _eq_pairs(keys):
     return [[i, j] for i in range(len(keys)) for j in range(i + 1, len(keys)) if keys[i] == keys[j]]
 
 
+def _run_hist(h):
+    """the history on the real object; returns ({"keys": [...]} | {"err": "raised"}, normal forms at the key calls, set seen before key)"""
+    op = build(h["tree"])
+    n = norm(h["tree"])
+    keys, norms, stale = [], [], []
+    was_set = False
+    for o in h["ops"]:
+        if o[0] == "key":
+            keys.append(op._key())
+            norms.append(n)
+            stale.append(was_set)
+        elif o[0] in ("ts", "it"):
+            try:
+                op = op.previous_timestep(steps=o[1]) if o[0] == "ts" else op.previous_iteration(steps=o[1])
+            except (ValueError, AssertionError):
+                return {"err": "raised"}, norms, stale, keys
+            n = _shift_hist(n, o[0], o[1])
+        else:
+            op.set_value(_fl(o[1]))
+            n = {"k": "scalar", "v": frac(Fraction(_fl(o[1])))}
+            was_set = True
+    return {"keys": keys}, norms, stale, keys
+
+
+def _shift_hist(n, kind, steps):
+    """normal form after a legal shift (the real call did not raise)"""
+    try:
+        return _shift(n, kind, steps)
+    except Invalid:
+        return {"k": "invalid"}
+
+
 def impl_run(case):
+    if "hist" in case:
+        return _run_hist(case["hist"])[0]
     ops = [build(E) for E in case["trees"]]
     keys = [o._key() for o in ops]
     return {"keys": keys, "eq": _eq_pairs(keys)}
@@ -919,6 +1041,10 @@ def impl_run(case):
 def model_ops(case):
     cfg = detect_cfg()
     lean_cfg = {k: v for k, v in cfg.items() if k != "idxHash"}
+    if "hist" in case:
+        h = case["hist"]
+        ops = [[o[0], repr(_fl(o[1]))] if o[0] == "set" else o for o in h["ops"]]
+        return [{"op": "hist", "cfg": lean_cfg, "pol": detect_policy(), "tree": wire(norm(h["tree"]), cfg), "ops": ops}]
     return [{"op": "keys", "cfg": lean_cfg, "trees": [wire(norm(E), cfg) for E in case["trees"]]}]
 
 
@@ -929,6 +1055,8 @@ def model_decode(outs, case):
 def compare(impl, model, case):
     if "harness_exc" in impl:
         return "real code raised: " + impl["harness_exc"]
+    if "hist" in case:
+        return None if impl == model else f"history: real {str(impl)[:300]} vs model {str(model)[:300]}"
     if "err" in model:
         return "driver: " + str(model)
     for i, (a, b) in enumerate(zip(impl["keys"], model["keys"])):
@@ -1052,6 +1180,34 @@ def _known():
 def oracle(case):
     """The property on the real code: for every pair of expressions, equal trees <=> equal keys (and hashes);
     keys are stable under repeated calls."""
+    if "hist" in case:
+        h = case["hist"]
+        out, norms, stale, keys = _run_hist(h)
+        # legal / illegal shifts: the real call raises iff the shift of the tree is illegal (or has zero steps on a reacting leaf)
+        n, want_err = norm(h["tree"]), False
+        for o in h["ops"]:
+            if o[0] in ("ts", "it"):
+                try:
+                    n2 = _shift(n, o[0], o[1])
+                except Invalid:
+                    want_err = True
+                    break
+                if o[1] == 0 and n2 != _shift(n, o[0], 1):
+                    want_err = True
+                    break
+                n = n2
+            elif o[0] == "set":
+                n = {"k": "scalar", "v": frac(Fraction(_fl(o[1])))}
+        if want_err != ("err" in out):
+            return {"what": f"history {h['ops']}: the shift should {'raise' if want_err else 'not raise'}", "key": "shift-legality"}
+        if any(nf.get("k") == "invalid" for nf in norms):
+            return {"what": f"history {h['ops']}: an illegal shift (time shift of a previous iterate or vice versa) did not raise", "key": "shift-legality"}
+        for i, (k, nf, st) in enumerate(zip(keys, norms, stale)):
+            fresh = build(canon(nf))._key()
+            if k != fresh:
+                key = "stale-key:scalar-set-value" if (st or _has_stale_scalar(h["tree"])) else "stale-key:history"
+                return {"what": f"history {h['ops']}: key call {i} returned {k[:120]!r} but the operator now is {fresh[:120]!r}", "key": key}
+        return None
     trees = case["trees"]
     ops = [build(E) for E in trees]
     keys = [o._key() for o in ops]
@@ -1093,6 +1249,8 @@ def oracle(case):
 
 # ------------------------------------------------------------------------------------------ evidence helpers
 def nontrivial(case):
+    if "hist" in case:
+        return any(o[0] == "key" for o in case["hist"]["ops"]) and any(o[0] != "key" for o in case["hist"]["ops"])
     try:
         ns = [norm(E) for E in case["trees"]]
     except Invalid:
@@ -1102,6 +1260,14 @@ def nontrivial(case):
 
 
 def shrink_candidates(case):
+    if "hist" in case:
+        h = case["hist"]
+        for i in range(len(h["ops"])):
+            yield {"hist": {"tree": h["tree"], "ops": h["ops"][:i] + h["ops"][i + 1:]}}
+        for path, node in _nodes(h["tree"]):
+            if path and not node.get("raw"):
+                yield {"hist": {"tree": node, "ops": h["ops"]}}
+        return
     t = case["trees"]
     if len(t) > 2:
         for i in range(len(t)):
@@ -1129,7 +1295,16 @@ def stats(cases, impl_outs):
         ch = [E[c] for c in ("a", "b", "t") if c in E and isinstance(E[c], dict)] + list(E.get("args", []))
         return 1 + max([d(c) for c in ch], default=0)
 
-    for c in cases:
+    strata, hops, hraised = {}, {}, 0
+    for c, o in zip(cases, impl_outs):
+        strata[c.get("stratum") or "random-tree"] = strata.get(c.get("stratum") or "random-tree", 0) + 1
+        if "hist" in c:
+            for op in c["hist"]["ops"]:
+                lab = op[0] + ("(0 steps)" if op[0] in ("ts", "it") and op[1] == 0 else "")
+                hops[lab] = hops.get(lab, 0) + 1
+            hraised += int(isinstance(o, dict) and "err" in o)
+    tree_cases = [c for c in cases if "trees" in c]
+    for c in tree_cases:
         for m in c.get("mut", []):
             muts[m] = muts.get(m, 0) + 1
         for E in c["trees"]:
@@ -1139,10 +1314,11 @@ def stats(cases, impl_outs):
                 if n["k"] == "proj" and isinstance(n["rng"], dict):
                     big += 1
     for o in impl_outs:
-        if isinstance(o, dict) and "keys" in o:
+        if isinstance(o, dict) and "eq" in o:
             n = len(o["keys"])
             eqp += len(o["eq"])
             nep += n * (n - 1) // 2 - len(o["eq"])
-    return {"repairs_detected_in_checked_tree": detect_cfg(), "hash_vs_key_pairs_checked": dict(HASH_STATS), "node_kinds": dict(sorted(kinds.items())), "mutation_kinds": dict(sorted(muts.items())),
+    return {"strata": strata, "history_calls": hops, "histories_that_raise": hraised, "cache_policy_detected": detect_policy(),
+            "repairs_detected_in_checked_tree": detect_cfg(), "hash_vs_key_pairs_checked": dict(HASH_STATS), "node_kinds": dict(sorted(kinds.items())), "mutation_kinds": dict(sorted(muts.items())),
             "tree_depth_histogram": {str(k): v for k, v in sorted(depth.items())}, "pairs_equal_key": eqp, "pairs_different_key": nep,
             "projections_with_more_than_1000_indices": big}
